@@ -1,7 +1,7 @@
-\* liveness under weak fairness: finite faults, honest source => the migration completes
+\* liveness under weak fairness: finite faults, honest source => the migration completes (empty pages, after which completion of the pass is not promised: MigrillianLive.cfg)
 CONSTANTS
   MaxIdx = 3
-  FaultKinds = {"short", "emptyPage", "fetchErr", "quota", "fatal", "rootErr", "sthErr", "consErr", "cancel", "revoke"}
+  FaultKinds = {"short", "fetchErr", "quota", "fatal", "rootErr", "sthErr", "consErr", "cancel", "revoke"}
   KeepHist = FALSE
   SrcSizes = {2}
   Growths = {0, 1}
